@@ -32,7 +32,7 @@ PROFILES = {
                           ("google", False, True, "CODE", "IGNORE"), ("rest", True, False, "DOCSTRING", "WARN")]]),
     "C02": dict(gen=dict(kw_rate=0.25, docs=0.6), options=[dict(convert=False), dict(convert=True)]),
     "C03": dict(gen=dict(private_rate=0.3), options=[dict()]),
-    "C04": dict(gen=dict(private_rate=0.4, unique_top_names=False), options=[dict()]),
+    "C04": dict(gen=dict(private_rate=0.4, unique_top_names=False, decoys=0.6), options=[dict()]),
     "C05": dict(gen=dict(docs=0.0, infer_returns=0.0), options=[dict()]),
     "C06": dict(gen=dict(docs=0.0), options=[dict(), dict(convert=True)]),
     "C07": dict(gen=dict(docs=0.0, infer_returns=0.5, ties=0.3), options=[dict()]),
